@@ -301,9 +301,6 @@ Definition parse_time_zone (value : string) : option nat :=
     end
   end.
 
-Fixpoint drop (n : nat) (s : string) : string :=
-  match n with O => s | S n' => match s with String _ r => drop n' r | EmptyString => s end end.
-
 (** one std chunk of time.parse; [None] is any parse or range error *)
 Definition parse_std (k : std) (value : string) (t : pt) : option (string * pt) :=
   match k with
